@@ -268,6 +268,8 @@ def run(ctx, rep):
 
     nonempty_frame_rules(F, ok, rep, "C15")
     declared_total_rules(F, rep, "C15")
+    from rules import C09
+    C09.cap_rules(F, rep, "C15", F.statics.get("metadata::SeekTable::MAX_POINTS", {}).get("v"))
 
     # ---- C15.panic ----------------------------------------------------------------------------------------------------------
     auditlib.panic_audit(ctx, rep, "C15", ["G_ctor"], floor_sites=240)
